@@ -20,143 +20,13 @@ THIS = ('this',)
 EFF = ('field', 'ef', THIS)
 SIZE = ('call', 'sdsl::sd_vector::size', (), EFF)
 WL = ('field', 'wl', EFF)
-INF = None
-_FLIP = {'<': '>', '>': '<', '<=': '>=', '>=': '<=', '==': '==', '!=': '!='}
-_NEG = {'<': '>=', '>': '<=', '<=': '>', '>=': '<', '==': '!=', '!=': '=='}
 
 
-def _sc(t):
-    while isinstance(t, tuple) and t and t[0] == 'cast':
-        t = t[2]
-    return t
+from interval import _sc, _subs, lin, bounds_at, INF
 
 
 def _lin(t):
-    """term -> (base, k) with base a variable term / SIZE / None (pure constant), value = base + k; or None"""
-    t = _sc(t)
-    if t[0] == 'lit' and isinstance(t[1], int):
-        return (None, t[1])
-    if t[0] == 'op' and len(t) == 4 and t[1] in ('+', '-'):
-        a, b = _lin(t[2]), _lin(t[3])
-        if a and b:
-            if b[0] is None:
-                return (a[0], a[1] + (b[1] if t[1] == '+' else -b[1]))
-            if a[0] is None and t[1] == '+':
-                return (b[0], a[1] + b[1])
-        return None
-    if t == SIZE:
-        return ('SIZE', 0)
-    if t[0] in ('param', 'local'):
-        return (t, 0)
-    return None
-
-
-def _edge_bounds(fn, c, label):
-    """[(var term, c)]: facts `var <= size() + c` implied by condition node c evaluating to `label`; second result: whether a
-    comparison between a variable and size() was met in a shape that is not understood"""
-    out, unknown = [], False
-    c = fn.strip(c)
-    if not c:
-        return out, unknown
-    nd = fn.n(c)
-    if nd['c'] == 'UnaryOperator' and nd['op'] == '!':
-        return _edge_bounds(fn, nd['ch'][0], not label)
-    if nd['c'] == 'BinaryOperator' and nd['op'] in ('&&', '||'):
-        if (nd['op'] == '&&') == label:
-            a, ua = _edge_bounds(fn, nd['ch'][0], label)
-            b, ub = _edge_bounds(fn, nd['ch'][1], label)
-            return a + b, ua or ub
-        return out, unknown
-    t = _sc(fn.term(c, inline=False))
-    if t[0] == 'op' and len(t) == 4 and t[1] in _FLIP:
-        l, r, rel = _lin(t[2]), _lin(t[3]), t[1]
-        mentions = SIZE in (list(_subs(t)))
-        if l and r:
-            if l[0] == 'SIZE':
-                l, r, rel = r, l, _FLIP[rel]
-            if r[0] == 'SIZE' and isinstance(l[0], tuple):
-                if not label:
-                    rel = _NEG[rel]
-                # (v + a) rel (size + b)
-                d = r[1] - l[1]
-                if rel == '<':
-                    out.append((l[0], d - 1))
-                elif rel in ('<=', '=='):
-                    out.append((l[0], d))
-                return out, False
-        if mentions:
-            unknown = True
-    return out, unknown
-
-
-def _subs(t):
-    yield t
-    if isinstance(t, tuple):
-        for x in t:
-            if isinstance(x, tuple):
-                yield from _subs(x)
-
-
-def _bounds_at(fn, g, targets):
-    """forward dataflow; returns {target node: {var term: c}} (state just before the element) and the unknown-shape flag"""
-    IN = {g.entry: {}}
-    work = [g.entry]
-    res = {}
-    unknown = False
-    rounds = 0
-    while work:
-        rounds += 1
-        if rounds > 5000:
-            raise AnalysisBroken(f"{fn.qname}: bound dataflow does not converge")
-        b = work.pop()
-        st = dict(IN[b])
-        for e in g.blocks[b]['elems']:
-            if e in targets:
-                old = res.get(e)
-                res[e] = dict(st) if old is None else {k: max(old[k], st[k]) for k in old if k in st}
-            nd = fn.n(e)
-            c = nd['c']
-            if c == 'UnaryOperator' and nd['op'] in ('++', '--'):
-                v = _sc(fn.term(nd['ch'][0], inline=False))
-                if v in st:
-                    st[v] += 1 if nd['op'] == '++' else -1
-            elif c == 'CompoundAssignOperator' and nd['op'] in ('+=', '-='):
-                v = _sc(fn.term(nd['ch'][0], inline=False))
-                k = _lin(fn.term(nd['ch'][1], inline=False))
-                if v in st:
-                    if k and k[0] is None:
-                        st[v] += k[1] if nd['op'] == '+=' else -k[1]
-                    else:
-                        del st[v]
-            elif c in ('BinaryOperator', 'CompoundAssignOperator') and nd['op'].endswith('=') and nd['op'] not in ('==', '!=', '<=', '>='):
-                v = _sc(fn.term(nd['ch'][0], inline=False))
-                st.pop(v, None)
-            elif c in ('CallExpr', 'CXXMemberCallExpr', 'CXXOperatorCallExpr', 'CXXConstructExpr'):
-                pm = nd.get('pmodes', [])
-                off = 1 if (c == 'CXXOperatorCallExpr' and nd.get('op_member')) else 0
-                for k, a in enumerate(nd.get('args', [])):
-                    pk = k - off
-                    if 0 <= pk < len(pm) and pm[pk] == 'ref':
-                        st.pop(_sc(fn.term(a, inline=False)), None)
-        cond = g.cond(b)
-        for (s, lab) in g.out_edges(b):
-            if s is None:
-                continue
-            out = dict(st)
-            if cond and isinstance(lab, bool):
-                facts, unk = _edge_bounds(fn, cond, lab)
-                unknown = unknown or unk
-                for (v, cc) in facts:
-                    out[v] = cc if v not in out else min(out[v], cc)
-            if s not in IN:
-                IN[s] = out
-                work.append(s)
-            else:
-                merged = {k: max(IN[s][k], out[k]) for k in IN[s] if k in out}
-                if merged != IN[s]:
-                    IN[s] = merged
-                    work.append(s)
-    return res, unknown
+    return lin(t, SIZE)
 
 
 def rule_select_range(ctx):
@@ -181,7 +51,7 @@ def rule_select_range(ctx):
             nd = f.n(i)
             if nd['c'] == 'BinaryOperator' and nd['op'] == '>>' and _sc(f.term(nd['ch'][1], inline=False)) == WL:
                 shifts[i] = _sc(f.term(nd['ch'][0], inline=False))
-        bounds, unknown = _bounds_at(f, g, set(shifts))
+        bounds, unknown = bounds_at(f, g, set(shifts), SIZE)
         for c in sel0:
             n_sites += 1
             arg = _sc(f.term(c, inline=False)[2][0])
@@ -220,4 +90,68 @@ def rule_select_range(ctx):
             obs.append(Ob('SELECT-RANGE', f, c, 'the rank passed to ef.high_1_select is the number of stored elements (ef.low.size())', fmt_term(arg)[:60],
                           OK if ok else UNDECIDED, arm='select1'))
     ctx.stats['select_sites'] = n_sites
+    return obs
+
+
+def _lin_terms(t, sign=1, out=None):
+    """flatten +/- into {atom repr: coefficient} with an integer constant under key None"""
+    out = out if out is not None else {}
+    t = _sc(t)
+    if t[0] == 'op' and len(t) == 4 and t[1] in ('+', '-'):
+        _lin_terms(t[2], sign, out)
+        _lin_terms(t[3], sign if t[1] == '+' else -sign, out)
+    elif t[0] == 'lit' and isinstance(t[1], int):
+        out[None] = out.get(None, 0) + sign * t[1]
+    else:
+        out[t] = out.get(t, 0) + sign
+    return {k: v for k, v in out.items() if v != 0}
+
+
+def rule_beyond_value(ctx):
+    """the beyond-universe branch of pred() returns the last stored element: index J-1 with J = ef.low.size() and the value
+    low[J-1] + (H << wl) where H is the high part of that element - by the Elias-Fano access formula
+    select1(J) - (J-1), or as the bucket of the last position of the universe ((size() - 1) >> wl)."""
+    obs = []
+    J = ('call', 'sdsl::int_vector::size', (), ('field', 'low', EFF))
+    for f in ctx.need(EF + '::pred', ctx.units):
+        g = graph(f)
+        done = False
+        for r in f.returns():
+            # the return under the beyond-universe guard: the one control dependent on a comparison with ef.size()
+            deps = [(b, lab) for (b, lab) in g.transitive_control_deps(f.block_of(r)[0]) if g.cond(b) and SIZE in list(_subs(f.term(g.cond(b), inline=False)))]
+            if not deps or not any(lab is True for (_, lab) in deps):
+                continue
+            done = True
+            t = _sc(f.term(f.n(r)['ch'][0], inline=True))
+            req = 'beyond the universe pred() returns (J-1, low[J-1] + (H << wl)), J = ef.low.size(), H = high_1_select(J) - (J-1) or (size()-1) >> wl'
+            if not (t[0] in ('construct', 'init') and len(t[-1] if t[0] == 'construct' else t[1:]) == 2):
+                obs.append(Ob('EF-LAST', f, r, req, 'unrecognised return ' + fmt_term(t)[:80], UNDECIDED, arm='beyond'))
+                continue
+            a, b = (t[2] if t[0] == 'construct' else t[1:])
+            idx_ok = _lin_terms(a) == {J: 1, None: -1}
+            b = _sc(b)
+            st, why = UNDECIDED, 'unrecognised value ' + fmt_term(b)[:80]
+            if b[0] == 'op' and b[1] in ('+', '|') and len(b) == 4:
+                lo_, hi_ = _sc(b[2]), _sc(b[3])
+                if hi_[0] == 'index':
+                    lo_, hi_ = hi_, lo_
+                low_ok = lo_[0] == 'index' and _sc(lo_[1]) == ('field', 'low', EFF) and _lin_terms(lo_[2]) == {J: 1, None: -1}
+                if hi_[0] == 'op' and hi_[1] == '<<' and _sc(hi_[3]) == WL:
+                    H = _sc(hi_[2])
+                    sel = ('call', 'sdsl::select_support_mcl::operator()', (J,), ('field', 'high_1_select', EFF))
+                    lt = _lin_terms(H)
+                    if lt == {sel: 1, J: -1, None: 1}:
+                        st, why = (OK, 'Elias-Fano access formula for element J-1') if low_ok and idx_ok else (VIOLATED, 'index or low part is not J-1')
+                    elif H[0] == 'op' and H[1] == '>>' and _sc(H[3]) == WL and _lin(H[2]) and _lin(H[2])[0] == 'SIZE':
+                        c = _lin(H[2])[1]
+                        if c == -1 and low_ok and idx_ok:
+                            st, why = OK, 'bucket of the last position of the universe, size() - 1'
+                        else:
+                            st, why = VIOLATED, (f"the high part is taken from position size(){c:+d}, not from the last stored element size()-1: one bucket too far when "
+                                                 f"size() is a multiple of 2^wl" if c != -1 else 'index or low part is not J-1')
+                    elif any(k is not None and k[0] == 'call' and 'select' in k[1] for k in lt):
+                        st, why = VIOLATED, f"`{fmt_term(H)[:60]}` is not high_1_select(J) - (J - 1)"
+            obs.append(Ob('EF-LAST', f, r, req, why, st, arm='beyond'))
+        if not done:
+            obs.append(Ob('EF-LAST', f, 0, 'a return under the beyond-universe guard', 'no return is control dependent on a comparison with ef.size()', UNDECIDED, arm='beyond'))
     return obs
